@@ -121,7 +121,7 @@ def _identity(ctx, case, rec, d):
                 rk_av = np.asarray(info.av, float)[:nsel].copy()
                 rk_sc = np.asarray(info.sc, float)[:nsel].copy()
                 chi = np.asarray(info.chi2, float)
-                if chi[0] == chi[1]:
+                if abs(chi[0] - chi[1]) <= 1e-9 * (1 + abs(chi[0])):          # tied (exactly, with the current arithmetic)
                     rec.cls('best-fit-exactly-tied')
                 if form == 'file':
                     fn = os.path.join(d, 'id%d.fitinfo' % ncall)
